@@ -71,6 +71,14 @@ def ob(v): return '-' if v is None else hx(v)
 def unob(t): return None if t == '-' else unhx(t)
 
 
+def kws(**pairs):
+    """keyword arguments of a real call: a token `~` means the argument is omitted altogether (the default call form)"""
+    out = {}
+    for k, (tok, conv) in pairs.items():
+        if tok != '~': out[k] = conv(tok)
+    return out
+
+
 def canon(v):
     if v is None: return 'none'
     if isinstance(v, (bytes, bytearray)): return hx(v)
@@ -101,8 +109,8 @@ def new_hash(alg):
 
 
 def hash_do(o, op, a):
-    if op == 'call': return o(unhx(a[0]), bitlen=unoi(a[1]))
-    if op == 'update': return o.update(unhx(a[0]), bitlen=unoi(a[1]), padding=unbo(a[2]))
+    if op == 'call': return o(unhx(a[0]), **kws(bitlen=(a[1], unoi)))
+    if op == 'update': return o.update(unhx(a[0]), **kws(bitlen=(a[1], unoi), padding=(a[2], unbo)))
     if op == 'initstate': return o.initstate()
     raise _Harness('hash op ' + op)
 
@@ -139,8 +147,8 @@ class KeccakFam:
         o = ctx[tgt]
         if op == 'call':
             if type(o).__name__ == 'SHA3' and len(a) == 1: return o(unhx(a[0]))
-            return o(unhx(a[0]), bitlen=unoi(a[1]), r=unoi(a[2]))
-        if op == 'duplex': return o.duplex(unhx(a[0]), bitlen=unoi(a[1]), outlen=unoi(a[2]))
+            return o(unhx(a[0]), **kws(bitlen=(a[1], unoi), r=(a[2], unoi)))
+        if op == 'duplex': return o.duplex(unhx(a[0]), **kws(bitlen=(a[1], unoi), outlen=(a[2], unoi)))
         if op == 'setrate': return o.setrate(int(a[0]))
         raise _Harness('keccak op ' + op)
     def reconf(self, tgt, op): return tgt == 'obj' and op == 'setrate'
@@ -153,7 +161,7 @@ class Md6Fam:
         mk = lambda: MD6(int(cfg[0]), Key=unhx(cfg[1]), L=int(cfg[2]))
         return {'obj': mk(), 'sib': mk()}
     def do(self, ctx, tgt, op, a):
-        if op == 'call': return ctx[tgt](unhx(a[0]), bitlen=unoi(a[1]))
+        if op == 'call': return ctx[tgt](unhx(a[0]), **kws(bitlen=(a[1], unoi)))
         raise _Harness('md6 op ' + op)
 
 
@@ -176,9 +184,9 @@ class BlakeFam:
         return {'obj': getattr(B, kind), 'sib': B.Blake(int(kind[5:])), 'sing': B.blake512 if kind != 'blake512' else B.blake256}
     def do(self, ctx, tgt, op, a):
         o = ctx[tgt]
-        if op == 'call': return o(unhx(a[0]), s=int(a[1]), bitlen=unoi(a[2]))
-        if op == 'update': return o.update(unhx(a[0]), bitlen=unoi(a[1]), padding=unbo(a[2]))
-        if op == 'initstate': return o.initstate(salt=int(a[0]))
+        if op == 'call': return o(unhx(a[0]), **kws(s=(a[1], int), bitlen=(a[2], unoi)))
+        if op == 'update': return o.update(unhx(a[0]), **kws(bitlen=(a[1], unoi), padding=(a[2], unbo)))
+        if op == 'initstate': return o.initstate(**kws(salt=(a[0], int)))
         raise _Harness('blake op ' + op)
 
 
@@ -194,7 +202,7 @@ class Blake2Fam:
     def do(self, ctx, tgt, op, a):
         o = ctx[tgt]
         if op == 'call': return o(unhx(a[0]), **b2params(a[1]))
-        if op == 'update': return o.update(unhx(a[0]), padding=unbo(a[1]))
+        if op == 'update': return o.update(unhx(a[0]), **kws(padding=(a[1], unbo)))
         if op == 'initstate': return o.initstate(**b2params(a[0]))
         raise _Harness('blake2 op ' + op)
 
@@ -208,7 +216,7 @@ class SkeinFam:
         return {'obj': mk(), 'sib': mk()}
     def do(self, ctx, tgt, op, a):
         o = ctx[tgt]
-        if op == 'call': return o(unhx(a[0]), bitlen=unoi(a[1]))
+        if op == 'call': return o(unhx(a[0]), **kws(bitlen=(a[1], unoi)))
         if op == 'update': return o.update(unhx(a[0]))
         if op == 'initstate': return o._initstate()
         raise _Harness('skein op ' + op)
@@ -242,9 +250,9 @@ class TlshFam:
         return {'obj': T.tlsh, 'sib': T.TLSH(128)}
     def do(self, ctx, tgt, op, a):
         o = ctx[tgt]
-        if op == 'call': return o(unhx(a[0]), unbo(a[1]))
+        if op == 'call': return o(unhx(a[0]), **kws(force=(a[1], unbo)))
         if op == 'update': return o.update(unhx(a[0]))
-        if op == 'final': return o.final(unhx(a[0]), unbo(a[1]))
+        if op == 'final': return o.final(unhx(a[0]), **kws(force=(a[1], unbo)))
         if op == 'digest': return o.digest()
         if op == 'from_hash': return o.from_hash(unhx(a[0]))
         if op == 'reset': return o.reset()
@@ -474,10 +482,10 @@ M3, M64, M70, M128, M140, M200, M600, M260 = msg(3), msg(64, 2), msg(70, 3), msg
 def hash_alpha(alg):
     big = ALGS[alg][1] == 'SHA2' and ALGS[alg][2][0] > 256
     mb, mx, bl = (M140, M128, 1043) if big else (M70, M64, 515)
-    A = [H('call', hx(mb), None), H('call', hx(mb), 77), H('call', hx(M3), 9999), H('update', hx(mx), None, 'F'),
+    A = [H('call', hx(mb), '~'), H('call', hx(mb), 77), H('call', hx(M3), 9999), H('update', hx(mx), '~', '~'),
          H('update', hx(M3), None, 'T'), H('update', hx(mb), bl, 'T'), H('update', hx(M3), None, 'F'), H('initstate'),
          H('sib.call', hx(mb), 77), H('sib.update', hx(mx), None, 'F')]
-    P = [H('call', hx(M3), None), H('call', hx(mb), None), H('call', hx(mb), 77), H('call', hx(M3), 9999)]
+    P = [H('call', hx(M3), '~'), H('call', hx(mb), None), H('call', hx(mb), 77), H('call', hx(M3), 9999)]
     return A, P
 
 
@@ -490,26 +498,26 @@ def keccak_alpha(kind, cfg):
     b = int(cfg[0]) if kind == 'Keccak' else 1600
     r2 = 576 if b == 1600 else 40
     mb = M200 if b == 1600 else M70
-    A = [H('call', hx(mb), None, None), H('call', hx(mb), 77, None), H('call', hx(M3), None, r2), H('call', hx(M3), 9999, None),
-         H('call', hx(M3), 9999, r2), H('call', hx(M3), None, 2000), H('duplex', hx(M3), None, None), H('duplex', hx(M3), 13, 64),
+    A = [H('call', hx(mb), '~', '~'), H('call', hx(mb), 77, None), H('call', hx(M3), None, r2), H('call', hx(M3), 9999, None),
+         H('call', hx(M3), 9999, r2), H('call', hx(M3), None, 2000), H('duplex', hx(M3), '~', '~'), H('duplex', hx(M3), 13, 64),
          H('duplex', hx(mb), None, None), H('setrate', r2), H('sib.call', hx(M3), 13, r2), H('sing.call', hx(M3), 13, 832)]
-    P = [H('call', hx(M3), None, None), H('call', hx(mb), 77, None), H('call', hx(M3), 13, r2), H('call', hx(M3), 9999, None)]
+    P = [H('call', hx(M3), '~', '~'), H('call', hx(mb), 77, None), H('call', hx(M3), 13, r2), H('call', hx(M3), 9999, None)]
     return A, P
 
 
 def md6_alpha(cfg):
-    A = [H('call', hx(M70), None), H('call', hx(M70), 77), H('call', hx(M3), 9999), H('call', hx(M600), None), H('sib.call', hx(M70), 77)]
-    P = [H('call', hx(M3), None), H('call', hx(M70), 77), H('call', hx(M600), 4797), H('call', hx(M3), 9999)]
+    A = [H('call', hx(M70), '~'), H('call', hx(M70), 77), H('call', hx(M3), 9999), H('call', hx(M600), None), H('sib.call', hx(M70), 77)]
+    P = [H('call', hx(M3), '~'), H('call', hx(M70), 77), H('call', hx(M600), 4797), H('call', hx(M3), 9999)]
     return A, P
 
 
 def blake_alpha(size):
     big = size > 256
     mb, mx = (M140, M128) if big else (M70, M64)
-    A = [H('call', hx(mb), 0, None), H('call', hx(mb), 12345, None), H('call', hx(mb), 0, 77), H('call', hx(M3), 0, 9999),
-         H('update', hx(mx), None, 'F'), H('update', hx(M3), None, 'T'), H('update', hx(M3), None, 'F'), H('initstate', 99),
+    A = [H('call', hx(mb), '~', '~'), H('call', hx(mb), 12345, None), H('call', hx(mb), 0, 77), H('call', hx(M3), 0, 9999),
+         H('update', hx(mx), '~', '~'), H('update', hx(M3), None, 'T'), H('update', hx(M3), None, 'F'), H('initstate', 99),
          H('sib.call', hx(mb), 12345, 77)]
-    P = [H('call', hx(M3), 0, None), H('call', hx(mb), 0, None), H('call', hx(mb), 7, 77), H('call', hx(M3), 0, 9999)]
+    P = [H('call', hx(M3), '~', '~'), H('call', hx(mb), 0, None), H('call', hx(mb), 7, 77), H('call', hx(M3), 0, 9999)]
     return A, P
 
 
@@ -521,16 +529,16 @@ def blake2_alpha(size, modelled=True):
     tree = 'fanout=2,depth=2,leafl=5,noffset=7,ndepth=1,inner=3'
     A = [H('call', hx(mb), '-'), H('call', hx(mb), 'outlen=20'), H('call', hx(mb), 'salt=' + salt), H('call', hx(M3), 'pers=' + pers),
          H('call', hx(M3), tree), H('call', hx(M3), 'outlen=99'), H('call', hx(M3), 'keylen=5')] + ([] if modelled else [H('call', hx(M3), 'salt=x0102'), H('call', hx(M3), 'keylen=3,fanout=0,depth=255,outlen=1'), H('call', hx(M3), 'keylen=99'), H('initstate', 'pers=x01')]) + [
-         H('update', hx(mx), 'F'), H('update', hx(M3), 'T'), H('update', hx(M3), 'F'), H('initstate', 'outlen=7'),
+         H('update', hx(mx), '~'), H('update', hx(M3), 'T'), H('update', hx(M3), 'F'), H('initstate', 'outlen=7'),
          H('sib.call', hx(mb), 'outlen=20')]
     P = [H('call', hx(M3), '-'), H('call', hx(mb), '-'), H('call', hx(mb), 'outlen=20'), H('call', hx(M3), 'salt=%s,pers=%s' % (salt, pers)), H('call', hx(M3), 'outlen=99')]
     return A, P
 
 
 def skein_alpha(cfg):
-    A = [H('call', hx(M70), None), H('call', hx(M70), 77), H('call', hx(M3), 9999), H('update', hx(M70)), H('initstate'),
+    A = [H('call', hx(M70), '~'), H('call', hx(M70), 77), H('call', hx(M3), 9999), H('update', hx(M70)), H('initstate'),
          H('sib.call', hx(M70), 77)]
-    P = [H('call', hx(M3), None), H('call', hx(M70), None), H('call', hx(M70), 77)]
+    P = [H('call', hx(M3), '~'), H('call', hx(M70), None), H('call', hx(M70), 77)]
     return A, P
 
 
@@ -546,10 +554,10 @@ def hmac_alpha(alg):
 
 def tlsh_alpha(cfg):
     dg = hx(bytes([0x12, 0x34, 0x56]) + msg(32, 13))                # a 35-byte digest for 128 buckets / chklen 1
-    A = [H('call', hx(M260), 'F'), H('call', hx(M140), 'T'), H('call', hx(M140), 'F'), H('call', hx(M3), 'T'), H('update', hx(M140)),
+    A = [H('call', hx(M260), '~'), H('call', hx(M140), 'T'), H('call', hx(M140), 'F'), H('call', hx(M3), 'T'), H('update', hx(M140)),
          H('final', hx(M140), 'T'), H('final', hx(M70), 'F'), H('final', 'x', 'F'), H('digest'), H('from_hash', dg), H('reset'),
          H('sib.call', hx(M140), 'T')]
-    P = [H('call', hx(M260), 'F'), H('call', hx(M140), 'T'), H('call', hx(M140), 'F')]
+    P = [H('call', hx(M260), '~'), H('call', hx(M140), 'T'), H('call', hx(M140), 'F')]
     return A, P
 
 
